@@ -217,17 +217,19 @@ def check_paths_and_tools(run: lib.Run, audit: dict, scale: int = 1):
 UNIFORM = {"interp": "deny-overrides", "set": "deny-overrides", "compiler": "deny-overrides", "lint": "deny-overrides"}
 
 
-def strip_algorithm(r: random.Random, pol: dict) -> dict:
+def strip_algorithm(r: random.Random, pol: dict, top: bool = True) -> dict:
     p = dict(pol)
     k = r.random()
-    if k < 0.6:
+    if top and "policies" in p and p.get("policies") and r.random() < 0.5:
+        pass        # a set that names its algorithm around children that do not: each child still defaults on its own
+    elif k < 0.6:
         p.pop("algorithm", None)
     elif k < 0.8:
         p["algorithm"] = None
     else:
         p["algorithm"] = ""
     if "policies" in p:
-        p["policies"] = [strip_algorithm(r, c) if isinstance(c, dict) and r.random() < 0.7 else c for c in p["policies"]]
+        p["policies"] = [strip_algorithm(r, c, False) if isinstance(c, dict) and r.random() < 0.7 else c for c in p["policies"]]
     return p
 
 
@@ -258,6 +260,9 @@ def check_defaults(run: lib.Run, audit: dict, violations: list, scale: int = 1):
         "reference evaluator": rpolicy.evaluate(w["policy"], env)["decision"],
         "set child": rset.decide({"policies": [w["policy"]]}, env)["decision"],
         "set of single-rule children": rset.decide({"policies": [{"rules": [r]} for r in w["policy"]["rules"]]}, env)["decision"],
+        "child of a permit-overrides set": rset.decide({"algorithm": "permit-overrides", "policies": [w["policy"]]}, env)["decision"],
+        "child of a first-applicable set": rset.decide({"algorithm": "first-applicable", "policies": [w["policy"]]}, env)["decision"],
+        "engine (child of a permit-overrides set)": real.run_guard({"algorithm": "permit-overrides", "policies": [w["policy"]]}, w["request"], {})["ok"]["effect"],
         "compiled": rcompiler.compile(w["policy"])(env)["decision"],
         "engine": real.run_guard(w["policy"], w["request"], {})["ok"]["effect"],
         "engine (set)": real.run_guard({"policies": [w["policy"]]}, w["request"], {})["ok"]["effect"],
